@@ -117,7 +117,14 @@ class Threads(EngineBase):
                     attrs = "name"             # not a collection
                 else:
                     attrs = []
-                ops.append({"op": "as_dict", "attrs": attrs})
+                op_ = {"op": "as_dict", "attrs": attrs}
+                if rng.random() < 0.35:
+                    # (a refusal of /proc/<pid>/stat itself is C03's
+                    # business: it trips the identity re-check, KF-C03-1)
+                    op_["deny"] = rng.choice(["status", "statm", "cmdline",
+                                              "environ", "fd", "io", "exe",
+                                              "cwd", "smaps"])
+                ops.append(op_)
             elif r < 0.95:
                 ops.append({"op": "ev", "ev": gen_change(rng)})
             else:
@@ -131,6 +138,7 @@ class Threads(EngineBase):
         """Reference: what `name` returns on a fresh handle outside oneshot
         in a quiet view of the kernel."""
         ek = k.view(procs_override, pins)
+        ek.deny = dict(k.deny)
         saved = seams.State.kernel
         seams.State.kernel = ek
         try:
@@ -200,8 +208,13 @@ class Threads(EngineBase):
                 elif kind == "get":
                     out = ("value", call_getter(p, op["m"]))
                 else:
-                    out = ("value", p.as_dict(attrs=op["attrs"],
-                                              ad_value="<ad>"))
+                    if op.get("deny"):
+                        k.deny = {"/proc/%d/%s" % (T, op["deny"]): 13}
+                    try:
+                        out = ("value", p.as_dict(attrs=op["attrs"],
+                                                  ad_value="<ad>"))
+                    finally:
+                        pass
             except BaseException as e:  # noqa: BLE001
                 if is_harness_exc(e):
                     raise
@@ -256,8 +269,12 @@ class Threads(EngineBase):
                 continue
             zombie = T in k.procs and k.procs[T].zombie
             if kind == "as_dict":
-                self._check_as_dict(psutil, k, V, op, out, acc, zombie)
+                self._check_as_dict(psutil, k, V, op, out, acc, zombie,
+                                    block, stack, probes)
+                k.deny = {}
                 if block is not None:
+                    if op.get("deny"):
+                        block["faulted"] = True   # refusals are not cached
                     for w, v in reads.items():
                         block["first"].setdefault(w, v)
                     for w, n in opens.items():
@@ -283,7 +300,8 @@ class Threads(EngineBase):
                     block["opens"][w] = block["opens"].get(w, 0) + n
                 # read-once for the shared sources
                 for w in SHARED_SOURCES:
-                    if block["opens"].get(w, 0) > 1 and not zombie:
+                    if block["opens"].get(w, 0) > 1 and not zombie and \
+                            not block.get("faulted"):
                         V("C16.read_once", [w] + (["nested"] if
                                                   block["nested"] else []),
                           name, "/proc/<pid>/%s opened %d times inside one "
@@ -357,7 +375,8 @@ class Threads(EngineBase):
                 "stats": dict(k.stats), "probes": probes,
                 "keys": sorted(keys), "sim_time": 0.0, "sample": sample}
 
-    def _check_as_dict(self, psutil, k, V, op, out, acc, zombie):
+    def _check_as_dict(self, psutil, k, V, op, out, acc, zombie, block=None,
+                       stack=(), probes=None):
         attrs = op["attrs"]
         valid = set(psutil._as_dict_attrnames)
         if attrs is not None and not isinstance(attrs, (list, tuple, set,
@@ -394,13 +413,44 @@ class Threads(EngineBase):
               % (attrs, sorted(set(d) ^ want) if isinstance(d, dict)
                  else type(d)))
             return
-        if not zombie:
+        if not zombie and not op.get("deny"):
             bad = [kk for kk, vv in d.items() if isinstance(vv, str) and
                    vv == "<ad>"]
             if bad:
                 V("C16.as_dict", ["spurious_ad_value"], "as_dict",
                   "ad_value used for %r although nothing was denied and the "
                   "process is no zombie" % (bad,))
+        # every value: what the getter itself answers (outside any block,
+        # same refusals in force), ad_value exactly where it raises
+        # AccessDenied / ZombieProcess
+        if stack:
+            return      # inside an outer block values may be older: C16s
+                        # judges those through the getter clauses
+        for name, val in d.items():
+            if name in ("pid", "cpu_percent", "create_time", "exe",
+                        "memory_percent", "connections"):
+                continue
+            ref = self._eval(psutil, k, name)
+            if ref[0] == "exc" and ref[1] in ("AD", "ZP"):
+                want = ("value", "<ad>")
+            elif ref[0] == "exc":
+                continue
+            else:
+                want = ref
+            if not self._same(want, ("value", val)):
+                V("C16.as_dict", ["value"] + (["deny"] if op.get("deny")
+                                              else []) +
+                  (["ad_value_expected"] if want[1] == "<ad>" else []), name,
+                  "as_dict()[%r] = %r but %s() %s" % (
+                      name, val, name, "raises %s (so ad_value is expected)"
+                      % ref[1] if ref[0] == "exc" else "returns %r" %
+                      (ref[1],)))
+            elif probes is not None:
+                probes["as_dict_value_checked"] = probes.get(
+                    "as_dict_value_checked", 0) + 1
+                if want[1] == "<ad>":
+                    probes["as_dict_ad_value_checked"] = probes.get(
+                        "as_dict_ad_value_checked", 0) + 1
 
     # ==================================================================
     # threaded programs
@@ -443,6 +493,17 @@ class Threads(EngineBase):
             if rng.random() < 0.5:
                 threads[1].insert(1, {"op": "is_running_y", "i": 0,
                                       "pid": x})
+            if rng.random() < 0.5:
+                # two recycled PIDs: the second one is flagged by the other
+                # thread while the first thread drains the flag set
+                y = rng.choice([p_ for p_ in (2, 3, 4) if p_ != x])
+                threads = [[{"op": "iter", "consume": None},
+                            {"op": "ev", "ev": {"ev": "reuse", "pid": x}},
+                            {"op": "ev", "ev": {"ev": "reuse", "pid": y}},
+                            {"op": "is_running_y", "i": 0, "pid": x},
+                            {"op": "iter", "consume": None}],
+                           [{"op": "iter", "consume": None},
+                            {"op": "is_running_y", "i": 0, "pid": y}]]
         elif prog == "C04t":
             world = None
             nthreads = 2
@@ -587,6 +648,7 @@ class Threads(EngineBase):
                        records, blocks_active):
         kind = op["op"]
         rec = {"op": op, "t": t, "j": j, "v0": k.version,
+               "nacc0": sched.total_yields,
                "active0": [b[1] for b in blocks_active]}
         records[t].append(rec)
         sr0 = len(k.statreads)
@@ -645,8 +707,12 @@ class Threads(EngineBase):
                     ys = shared.get("yielded", {}).get(t) or []
                     if "pid" in op:
                         ys = [y for y in ys if y.pid == op["pid"]] or ys
-                    rec["out"] = ("value", ys[op["i"] % len(ys)].is_running()
-                                  if ys else None)
+                    if ys:
+                        tgt = ys[op["i"] % len(ys)]
+                        rec["target_pid"] = tgt.pid
+                        rec["out"] = ("value", tgt.is_running())
+                    else:
+                        rec["out"] = ("value", None)
                 else:
                     psutil.process_iter.cache_clear()
                     rec["out"] = ("value", None)
@@ -664,7 +730,8 @@ class Threads(EngineBase):
         rec["v1"] = k.version
         rec["statreads"] = k.statreads[sr0:]
         rec["tabreads"] = k.tabreads[tr0:]
-        rec["nacc_end"] = k.nacc
+        rec["nacc_end"] = sched.total_yields
+        rec["acc_end"] = k.nacc
 
     # ---- oracles of the threaded programs -----------------------------
     def check_C16t(self, W, psutil, k, plan, records, V, probes, keys):
@@ -788,6 +855,47 @@ class Threads(EngineBase):
                       "pid %d: different objects in two sequential "
                       "iterations after the threads finished" % pid)
             probes["eventual_coherence_checked"] = 1
+            # objects that is_running() declares recycled now must be
+            # replaced: the next iteration may skip the PID (KF-C04-1), the
+            # one after must not yield the old object any more
+            stale = []
+            for o in list(b.values()):
+                acc0 = len(k.acclog)
+                r = o.is_running()
+                cur = k.procs.get(o.pid)
+                if r is False and cur is not None:
+                    stale.append(o)
+            if stale:
+                list(psutil.process_iter())
+                c = list(psutil.process_iter())
+                allrecs = [r_ for recs in records for r_ in recs]
+                iters = [r_ for r_ in allrecs if r_["op"]["op"] == "iter"
+                         and "nacc_end" in r_]
+                for o in stale:
+                    flags = [r_ for r_ in allrecs
+                             if r_["op"]["op"] == "is_running_y" and
+                             r_.get("target_pid") == o.pid and
+                             r_.get("out") == ("value", False)]
+                    t_flag = min([r_["nacc0"] for r_ in flags] or [0])
+                    overl = any(
+                        a_ is not b_ and a_["t"] != b_["t"] and
+                        a_["nacc_end"] > t_flag and b_["nacc_end"] > t_flag
+                        and a_["nacc0"] < b_["nacc_end"] and
+                        b_["nacc0"] < a_["nacc_end"]
+                        for a_ in iters for b_ in iters)
+                    cause = ["overlapping_iterations_after_flag"] if overl \
+                        else ["no_overlapping_iterations"]
+                    if any(x is o for x in c):
+                        V("C04.recycled_refreshed", ["after_two_threads",
+                                                     "old_object"] + cause,
+                          "process_iter", "pid %d: is_running() is False "
+                          "(PID recycled) but the old object is still "
+                          "yielded two iterations later (flag at access %d; "
+                          "iterations [thread, first..last access]: %r)" % (
+                              o.pid, t_flag, [(r_["t"], r_["nacc0"],
+                                               r_["nacc_end"])
+                                              for r_ in iters]))
+                probes["stale_objects_rechecked"] = len(stale)
         except BaseException as e:  # noqa: BLE001
             if is_harness_exc(e):
                 raise
